@@ -157,6 +157,19 @@ Section C11.
          (aget (replay blob (aset (s_kv st) K_RESUMP b) ops) K_RESUMP = Some b \/
           exists l', aget (replay blob (aset (s_kv st) K_RESUMP b) ops) K_RESUMP = Some (enc_res l'))).
   Proof. intros; eapply bad_cache_boots; eassumption. Qed.
+
+  (** from ANY store - also one a power loss inside RemoveFabric left behind, with the fabric key gone
+      and the records of that fabric still in the stored cache - start-up leaves a cache that holds
+      only records of fabrics in the table, and the stored cache reads back as exactly that: the next
+      restart cannot bring a dropped record back, whatever happens to the fabric index in between *)
+  Theorem C11_startup_cleans_cache : forall (m : kv blob) r ops,
+    startup m = Some (r, ops) ->
+    (forall x, In x (r_resump r) -> amem (r_fabs r) (fst x) = true) /\
+    match aget (replay blob m ops) K_RESUMP with
+    | None => r_resump r = []
+    | Some b => dec_res b = Some (r_resump r)
+    end.
+  Proof. intros m r ops H. eapply startup_cache_clean in H; eassumption. Qed.
 End C11.
 
 Print Assumptions C11_invariant.
@@ -171,6 +184,7 @@ Print Assumptions C11_refused_changes_nothing.
 Print Assumptions C11_writes_only_writable_keys.
 Print Assumptions C11_factory_reset_empty.
 Print Assumptions C11_bad_cache_boots.
+Print Assumptions C11_startup_cleans_cache.
 
 (** ** The hypotheses are satisfiable, the classes set aside are inhabited *)
 
@@ -318,6 +332,47 @@ Theorem C11_subscription_best_effort_witness :
   r_subs (s_ram (fst (c_run true st0 [OSub (SC 1) 3; OReset]))) = [(1, 3)].
 Proof. vm_compute. repeat split. Qed.
 Print Assumptions C11_subscription_best_effort_witness.
+
+(** RemoveFabric(2) cut by a power loss after its first key-value operation (the fabric key is gone,
+    the stored cache still has the record of fabric 2), restart, a new fabric is commissioned and gets
+    index 2 again, second restart before any flush: the old record is NOT live under the new fabric,
+    because the first start-up rewrote the stored cache ([s267] among its operations) *)
+Theorem C11_cut_removal_record_not_rebound :
+  let st0 := init_state 2 true in
+  let st1 := fst (c_run true st0 [OResume 2 71; OFlush]) in
+  let (st2, evs) := c_step_cut true st1 (ORemove (SC 1) 2) 1 in
+  c_kvlog evs = [KRemove 2; KStore K_RESUMP (BRes [])] /\
+  aget (s_kv st1) K_RESUMP = Some (BRes [(2, 71)]) /\
+  let st3 := fst (c_run true st2 [OPase; OArm SP; OAddNoc 77; OComplete 2; OCrash]) in
+  amem (r_fabs (s_ram st3)) 2 = true /\ fab_label (Some (s_ram st3)) 2 = Some 0 /\
+  option_map f_nid (aget (r_fabs (s_ram st3)) 2) = Some 77 /\
+  r_resump (s_ram st3) = [] /\ aget (s_kv st3) K_RESUMP = Some (BRes []).
+Proof. vm_compute. repeat split. Qed.
+Print Assumptions C11_cut_removal_record_not_rebound.
+
+(** the monitor tells the two restarts apart: observations as a start-up that prunes in memory only
+    would give them (stored cache [K] unchanged by the first restart, the record live again after the
+    second, fabric index 2 standing for commissioning 1000 instead of 2) yield the two cache
+    violations; the same history observed on the code as it is yields none of them *)
+Example C11_cache_monitor_not_vacuous :
+  let mk restart sess fabs res kres inc :=
+    mkOp true 0 None None 0 None false [] restart sess fabs res kres inc in
+  let bad := [ mk false (Some (2, 71)) [1; 2] [(2, 71)] [] [(1, 1); (2, 2)];          (* H:2:71 *)
+               mk false None [1; 2] [(2, 71)] [(2, 71)] [(1, 1); (2, 2)];             (* J *)
+               mk true None [1] [] [(2, 71)] [(1, 1)];                                (* X1:2~1 *)
+               mk false None [1; 2] [] [(2, 71)] [(1, 1); (2, 1000)];                 (* commissioned again *)
+               mk true None [1; 2] [(2, 71)] [(2, 71)] [(1, 1); (2, 1000)] ] in       (* Q *)
+  let good := [ mk false (Some (2, 71)) [1; 2] [(2, 71)] [] [(1, 1); (2, 2)];
+                mk false None [1; 2] [(2, 71)] [(2, 71)] [(1, 1); (2, 2)];
+                mk true None [1] [] [] [(1, 1)];
+                mk false None [1; 2] [] [] [(1, 1); (2, 1000)];
+                mk true None [1; 2] [] [] [(1, 1); (2, 1000)] ] in
+  check_stale_ops 0 bad ++ check_rebound 0 [] bad = [(V_STALE_LIVE, 2); (V_REBOUND, 4)] /\
+  check_stale_ops 0 good ++ check_rebound 0 [] good = [] /\
+  (* a session established anew under the new fabric binds the record anew *)
+  check_rebound 0 [] (firstn 4 good ++ [mk false (Some (2, 71)) [1; 2] [(2, 71)] [] [(1, 1); (2, 1000)]]) = [] /\
+  check_stale_cuts [mkCut 2 true [] [1] [(2, 71)]; mkCut 3 true [] [1; 2] [(2, 71)]] = [(V_STALE, 2)].
+Proof. vm_compute. repeat split. Qed.
 
 (** the stores of the other handlers: time zone, trusted time source (removed with its fabric),
     ICD registration, OTA provider and scene (dropped with their fabric) *)
